@@ -70,6 +70,25 @@ def run_batch(model, src, frames, batch, k, refine):
     return out
 
 
+def run_range(model, src, frames, s, e, bs, k, refine):
+    """Real predictor with the VideoReader provider on frames [s, e) of the (single) video, batch size bs.
+    Returns {frame_idx: [instances]} keyed by the identity the CODE reports."""
+    from harness import inferplane as ip
+
+    pred = build(model, frames, k, refine, bs)
+    lab = ip.run_predictor(pred, "VideoReader", src, bs, make_labels=True, video_range=(s, e))
+    out = {}
+    for lf in lab:
+        fid = int(lf.frame_idx) if lab.videos.index(lf.video) == 0 else -1
+        insts = [(np.asarray(x.numpy(), dtype=np.float64), float(x.score) if x.score is not None else 0.0) for x in lf.instances]
+        insts = [(p, s_) for p, s_ in insts if np.any(np.isfinite(p))]
+        out.setdefault(fid, []).append(insts)
+    return out
+
+
+RANGES = [(0, 4, 2), (0, 4, 3), (0, 4, 4), (1, 4, 2), (0, 3, 3), (1, 3, 2), (2, 4, 2)]
+
+
 class Classes:
     """allclose clustering of instance coordinate arrays (NaN pattern must match)"""
 
@@ -130,7 +149,7 @@ def run(tier, seed, only=None):
             err = "singleton run: %s: %s" % (type(e).__name__, str(e)[:200])
         use = batches if tier == "thorough" else ([b for b in batches if len(b) <= 2] + rng.sample([b for b in batches if len(b) == 3], 8))
         for b in use:
-            if only and b != only["batch"]:
+            if only and (b != only["batch"] or only.get("range")):
                 continue
             case = dict(id=len(cases), model=model, k=k, refine=refine or "none", batch=b, animals=[len(fr["animals"]) for fr in frames],
                         single=single, singlek=singlek, recs=[], raised=err, combo=[model, k, refine], seed=seed)
@@ -140,6 +159,41 @@ def run(tier, seed, only=None):
                     for fid, lst in o.items():
                         for insts in lst:
                             case["recs"].append(dict(fid=fid, insts=proj(insts)))
+                except Exception as e:
+                    import traceback
+                    case["raised"] = "%s: %s | %s" % (type(e).__name__, str(e)[:200], traceback.format_exc()[-300:].replace("\n", " / "))
+            cases.append(case)
+        # ---- the same combination through the VideoReader provider: consecutive frames [s, e) of ONE video in batches of bs
+        if only and not only.get("range") and only.get("batch") is not None:
+            continue
+        framesV = [dict(fr, video=0) for fr in scene(random.Random(seed * 37 + ci), model == "single")]
+        framesV = framesV[2:] + framesV[:2]                  # an empty frame in the middle of a batch, not only first
+        srcV = ip.make_source(framesV, 3, EDGES)
+        clV = Classes()
+
+        def projV(insts):
+            return [dict(cls=clV.of(p), score=int(round(s_ * 1e6))) for p, s_ in insts]
+
+        singleV, singlekV, errV = [], [], ""
+        try:
+            for f in range(4):
+                o0 = run_range(model, srcV, framesV, f, f + 1, 1, 0, refine)
+                ok_ = run_range(model, srcV, framesV, f, f + 1, 1, k, refine) if k else o0
+                singleV.append(projV(sum(o0.get(f, []), [])))
+                singlekV.append(projV(sum(ok_.get(f, []), [])))
+        except Exception as e:
+            errV = "singleton run: %s: %s" % (type(e).__name__, str(e)[:200])
+        for (s0, e0, bs) in (RANGES if tier == "thorough" else RANGES[:4] + [RANGES[4 + ci % 3]]):
+            if only and [s0, e0, bs] != only.get("range"):
+                continue
+            case = dict(id=len(cases), model=model, k=k, refine=refine or "none", batch=list(range(s0, e0)), animals=[len(fr["animals"]) for fr in framesV],
+                        single=singleV, singlek=singlekV, recs=[], raised=errV, combo=[model, k, refine], seed=seed, range=[s0, e0, bs], provider="VideoReader")
+            if not errV:
+                try:
+                    o = run_range(model, srcV, framesV, s0, e0, bs, k, refine)
+                    for fid, lst in o.items():
+                        for insts in lst:
+                            case["recs"].append(dict(fid=fid, insts=projV(insts)))
                 except Exception as e:
                     import traceback
                     case["raised"] = "%s: %s | %s" % (type(e).__name__, str(e)[:200], traceback.format_exc()[-300:].replace("\n", " / "))
@@ -192,16 +246,19 @@ def run(tier, seed, only=None):
         key = dict(where={"single": "SingleInstancePredictor", "topdown": "TopDownPredictor", "bottomup": "BottomUpPredictor", "real-bottomup": "main():bottomup checkpoint"}[c["model"]], kind=clause, max_instances=c["k"])
         if clause == "raised":
             key["error"] = c["raised"].split(":")[0 if not c["raised"].startswith("singleton") else 1].strip()
-        res.violation(key, clause, dict(combo=c["combo"], batch=c["batch"], recs=c["recs"], singlek=c["singlek"], single=c["single"], animals=c["animals"]),
-                      "%s k=%s refine=%s batch=%s %s" % (c["model"], c["k"], c["refine"], c["batch"], c["raised"]))
+        if c.get("provider"):
+            key["provider"] = c["provider"]
+        res.violation(key, clause, dict(combo=c["combo"], batch=c["batch"], range=c.get("range"), recs=c["recs"], singlek=c["singlek"], single=c["single"], animals=c["animals"]),
+                      "%s k=%s refine=%s batch=%s %s %s" % (c["model"], c["k"], c["refine"], c["batch"], ("VideoReader range/batch size %s" % c["range"]) if c.get("range") else "", c["raised"]))
     res.clause("batches_with_empty_frame", sum(1 for c in cases if 0 in c["batch"]))
+    res.clause("video_reader_range_runs", sum(1 for c in cases if c.get("provider") == "VideoReader"))
     res.clause("runs_with_max_instances", sum(1 for c in cases if c["k"]))
     res.coverage.update(evaluations=len(cases), exhaustive=(tier == "thorough"),
                         distinct_nontrivial=len({(c["model"], c["k"], c["refine"], str(c["batch"])) for c in cases if len(c["batch"]) >= 2}),
                         rule="all 40 batches of <= 3 of 4 frames (0..3 animals, two videos) in thorough; all of size <= 2 plus 8 of size 3 in quick; x model type x max_instances {none,1,2} x refinement; non-trivial = batch of at least 2 frames")
     if cases:
         res.sample({k_: cases[len(cases) // 2][k_] for k_ in ("model", "k", "batch", "recs", "singlek")})
-    res.assumptions += ["ideal-network stubs (see C02/C03); LabelsReader provider; predict(make_labels=True) through the sleap-io compatibility shim",
+    res.assumptions += ["ideal-network stubs (see C02/C03); LabelsReader (arbitrary batches) and VideoReader (consecutive ranges x batch sizes) providers; predict(make_labels=True) through the sleap-io compatibility shim",
                         "an all-NaN PredictedInstance (what the single-instance predictor emits for a frame with no detection) counts as no instance",
                         "equality classes by allclose (2e-3 px) clustering of instance coordinate arrays"]
     return res
@@ -209,4 +266,4 @@ def run(tier, seed, only=None):
 
 def replay(rp, seed):
     c = rp["case"]
-    return run("thorough", seed, only=dict(combo=c["combo"], batch=c["batch"]))
+    return run("thorough", seed, only=dict(combo=c["combo"], batch=c["batch"], range=c.get("range")))
